@@ -767,6 +767,8 @@ def rule_single_owner(ctx, P, r):
 
 
 # ---------------------------------------------------------------- R06f list bitmaps
+from ..guards import implied_atoms as implied_atoms_
+
 def rule_list_bitmaps(ctx, P, r, units=None):
     """convert_list_to_bitmap builds its 64-bit result from `1 << idx` in int arithmetic: for index 31 the sign extension sets
     bits 31..63.  That is harmless as long as every consumer tests single bits (`bm & (1 << i)`, i < 32); any whole-word consumer
@@ -813,6 +815,27 @@ def rule_list_bitmaps(ctx, P, r, units=None):
                     ops = i.ops if i.op != 'phi' else [v for v, _ in i.incoming]
                     if i.op in ('or', 'phi', 'select', 'sext', 'zext', 'trunc') and any(o in T for o in ops):
                         T.add(i.res); changed = True
+        # list positions: induction variables of loops that walk a -1 terminated list (guard = list[iv] compared with the sentinel)
+        from ..loops import loops_of as _lo2
+        from ..poly import PolyCtx as _PC2
+        listpos = set()
+        try:
+            for L_ in _lo2(P, fn, _PC2(P, fn)):
+                bounded = {g_.iv for g_ in L_.guards()}
+                for (xb, xs) in L_.exits:
+                    tt = xb.insts[-1]
+                    cc = fn.defs.get(tt.ops[0]) if tt.op == 'br' and tt.ops else None
+                    for at_, tv_ in (implied_atoms_(fn, tt.ops[0], True) + implied_atoms_(fn, tt.ops[0], False)) if cc is not None else []:
+                        for o_ in at_.ops:
+                            ld_ = fn.defs.get(strip_int_casts(fn, o_))
+                            if ld_ is not None and ld_.op == 'load':
+                                g_ = fn.defs.get(ld_.ops[0])
+                                if g_ is not None and g_.op == 'getelementptr':
+                                    iv_ = strip_int_casts(fn, g_.ops[-1])
+                                    if iv_ in L_.ivs() and iv_ not in bounded and any(x in ('-1', '0') for x in at_.ops):
+                                        listpos.add(iv_)
+        except Exception:
+            listpos = set()
         for i in fn.insts():
             ops = i.ops if i.op != 'phi' else [v for v, _ in i.incoming]
             if not any(o in T for o in ops) or i.res in T:
@@ -820,6 +843,20 @@ def rule_list_bitmaps(ctx, P, r, units=None):
             n += 1
             inst = f'{name}: use of the list bitmap at line {i.line}'
             if i.op == 'and' and any(single_bit(fn, o) for o in i.ops if o not in T):
+                amt = None
+                for o in i.ops:
+                    if o not in T:
+                        x_ = strip_int_casts(fn, o)
+                        d_ = fn.defs.get(x_)
+                        while d_ is not None and d_.op in ('sext', 'zext', 'trunc'):
+                            x_ = strip_int_casts(fn, d_.ops[0]); d_ = fn.defs.get(x_)
+                        if d_ is not None and d_.op == 'shl':
+                            amt = strip_int_casts(fn, d_.ops[1])
+                if amt in listpos:
+                    r.fail(inst, func=name, sig='bitmap of fragment indexes tested with a list position', loc=i.loc,
+                           msg=f'the bitmap holds one bit per fragment index, but bit {Canon(P, fn).val(amt)} is the position in a -1 terminated list '
+                               '(the loop walks the list and tests 1 << position, not 1 << list[position])')
+                    continue
                 r.ok(inst + ': single-bit test', func=name, loc=i.loc)
             else:
                 what = i.callee if i.op == 'call' else i.op
